@@ -320,7 +320,7 @@ BITSTAMP_MESSAGE = ["X-Auth", "method", "hostname", "path", "qs_params", "Conten
 def rule_spec(ctx: Ctx) -> None:
     fn = ctx.func(f"{BTS}.helpers.get_auth_headers")
     parts: List[str] = []
-    for n in sorted([x for x in C.walk_shallow(fn.node) if isinstance(x, (ast.Assign, ast.AugAssign))], key=lambda x: x.lineno):
+    for n in sorted([x for x in C.walk_shallow(fn.node) if isinstance(x, (ast.Assign, ast.AugAssign))], key=A.seq):
         tgt = n.targets[0] if isinstance(n, ast.Assign) else n.target
         if not (isinstance(tgt, ast.Name) and tgt.id == "message"):
             continue
@@ -365,7 +365,7 @@ def rule_spec(ctx: Ctx) -> None:
     # the signature is the last header written
     sig_store = [s for s in A.stores(fn) if isinstance(s.target, ast.Subscript) and A.const_value(s.target.slice) == "X-Auth-Signature"]
     later = [s for s in A.stores(fn) if A.dotted(A.base_attr(s.target)[0] if False else (s.target.value if isinstance(s.target, ast.Subscript) else s.target)) == "headers"
-             and sig_store and s.stmt.lineno > sig_store[0].stmt.lineno]
+             and sig_store and A.seq(s.stmt) > A.seq(sig_store[0].stmt)]
     ctx.check(bool(sig_store) and not later, "C16.3", "bitstamp signature is the last header written", fn,
               sig_store[0].stmt if sig_store else fn.node, "no header modified after signing", "a header is modified after the "
               "signature was computed", key_text="signature last header")
